@@ -352,6 +352,7 @@ fn small_alphabet() -> Vec<Op> {
         Op::Set { c: 0, key: "a/c".into(), value: json!(3) },
         Op::CSet { c: 1, key: "a/b".into(), value: json!(1), version: 0 },
         Op::CSet { c: 1, key: "a/b".into(), value: json!(4), version: 1 },
+        Op::CSet { c: 1, key: "a/b".into(), value: json!(1), version: 1 },
         Op::Delete { c: 0, key: "a/b".into() },
         Op::PDelete { c: 0, pattern: "a/#".into() },
         Op::Import { entries: vec![("a/b".into(), Entry { value: json!(1), version: 0 }), ("a/d".into(), Entry { value: json!(5), version: 2 })] },
@@ -445,7 +446,7 @@ pub fn run(ctx: &Ctx) -> Evidence {
     });
 
     // ---- (b) random histories -------------------------------------------------------------------
-    let histories = ctx.tier.pick(600usize, 20_000usize);
+    let histories = ctx.tier.pick(3000usize, 20_000usize);
     let base = Rng::new(ctx.seed);
     par_shards(&mut ev, histories, |i, ev| {
         let mut rng = base.fork(i as u64);
@@ -512,7 +513,7 @@ pub fn run(ctx: &Ctx) -> Evidence {
         record(ev, &obs, findings);
     });
     // ---- (c) socket part: delivery through the per-subscription forwarding tasks ---------------------
-    let socket_runs = ctx.tier.pick(40usize, 1500usize);
+    let socket_runs = ctx.tier.pick(100usize, 1500usize);
     let dir = ctx.scratch("c03");
     super::c03_socket::run_socket_part(&mut ev, ctx.seed, socket_runs, &dir);
     ev.assumptions = vec![
